@@ -50,7 +50,13 @@ Viols(e, pre) ==
      (IF "panic" \in SeqToSet(e.obs.kinds) THEN {<<"C14", "panic-on-remote-input">>} ELSE {}) \cup
      (IF "fatal" \in SeqToSet(e.obs.kinds) THEN {<<"C14", "non-temporary-error-for-connection-failure">>} ELSE {}) \cup
      (IF "timeout" \in SeqToSet(e.obs.kinds) THEN {<<"C14", "listener-did-not-return">>} ELSE {}) \cup
+     (IF e.obs.stallTried /\ ~e.obs.stallHonestOK THEN {<<"C14", "listener-stopped-while-a-peer-stalls">>} ELSE {}) \cup
      (IF SeqToSet(e.obs.kinds) \cap {"auth", "fetchconn", "othertype"} # {} THEN {<<"C14", "malformed-input-yielded-connection">>} ELSE {})
+   ELSE {}) \cup
+  (IF "C14" \in Props /\ e.op.op = "Connect" THEN
+     (IF "panic" \in SeqToSet(e.obs.kinds) THEN {<<"C14", "panic-on-remote-input">>} ELSE {}) \cup
+     (IF "fatal" \in SeqToSet(e.obs.kinds) THEN {<<"C14", "non-temporary-error-for-connection-failure">>} ELSE {}) \cup
+     (IF "timeout" \in SeqToSet(e.obs.kinds) THEN {<<"C14", "listener-did-not-return">>} ELSE {})
    ELSE {}) \cup
   (IF "C14" \in Props /\ e.op.op = "Dial" /\ pre.rec[e.op.k] /\ pre.cert[e.op.k] = "fresh" /\ e.res # "auth"
      THEN {<<"C14", "honest-node-cannot-connect">>} ELSE {}) \cup
